@@ -4,6 +4,7 @@ statement-level and line-level thread schedules).
 
 Generation (seed -> explicit trace) and execution (explicit trace -> events, violations) are
 separate, so a replay file is just a trace and the shrinker edits traces."""
+import gc
 import hashlib
 import itertools
 import json
@@ -113,6 +114,10 @@ class ParsersWorld:
                             flags["silent"] = False
                     it = {"ddl": cur["ddl"], "flags": flags, "run": dict(cur["run"]),
                           "src": cur["src"].split("+")[0] + "+reflag"}
+                elif cur is not None and ro.random() < 0.12:
+                    # a fresh object over ANOTHER text of exactly the same length (the previous object is dropped first)
+                    it = {"ddl": workload.same_length_variant(ro, cur["ddl"]), "flags": dict(cur["flags"]), "run": dict(cur["run"]),
+                          "src": cur["src"].split("+")[0] + "+samelen"}
                 elif cur is not None and ro.random() < 0.25 and workload.tables_of(cur["ddl"]):
                     # a fresh object whose script only alters / indexes the PREVIOUS object's tables
                     ddl, shape = workload.gen_followup(ro, workload.tables_of(cur["ddl"]))
@@ -241,6 +246,8 @@ class ParsersWorld:
                     stats["reflag_objects"] += 1
                 elif src.startswith("gen:followup"):
                     stats["followup_objects"] += 1
+                obj = None          # the previous object is abandoned (and collected) BEFORE the next one is built
+                gc.collect()
                 try:
                     obj = self.DDLParser(cur["ddl"], **cur["flags"])
                     outcome = ["constructed"]
@@ -450,7 +457,8 @@ class ParsersWorld:
                 # the same text as the neighbour under other settings: anything keyed by the text alone
                 # (a statement cache, a shared lexer) shows as one object using the other's settings
                 prev = tasks[-1]
-                it = {"ddl": prev["ddl"], "flags": dict(prev["flags"]), "run": dict(prev["runs"][0]),
+                it = {"ddl": prev["ddl"] if ro.random() < 0.75 else workload.same_length_variant(ro, prev["ddl"]),
+                      "flags": dict(prev["flags"]), "run": dict(prev["runs"][0]),
                       "src": "gen:" + prev["src"].split(":", 1)[-1] + "+same"}
             elif t > 0 and share < 0.4 and workload.tables_of(tasks[-1]["ddl"]):
                 ddl, shape = workload.gen_followup(ro, workload.tables_of(tasks[-1]["ddl"]))
